@@ -76,4 +76,28 @@ RootFloor(ann, xs) == Bisect(ann, xs, Zero, SumSeq(xs))
    (Ann + C/x_o) / (Ann + C/x_a),  C = D^(n+1) / P  ==  (Ann*x_o*P + D^(n+1)) * x_a / ((Ann*x_a*P + D^(n+1)) * x_o) *)
 MarginalNum(ann, xs, D, o, a) == Mul(Add(Mul(Mul(ann, xs[o]), PP(xs)), Pow(D, Len(xs) + 1)), xs[a])
 MarginalDen(ann, xs, D, o, a) == Mul(Add(Mul(Mul(ann, xs[a]), PP(xs)), Pow(D, Len(xs) + 1)), xs[o])
+(* exact-solution bracket for a quote (C19): after adding dx to asset o and removing gross from asset a
+   (all in scaled units), the invariant computed with tol more / tol less of asset a must bracket D* of
+   the pre-trade balances (d0 = floor(D* )). *)
+QuoteBracketOK(ann, xs0, d0, o, a, dx, gross, tol) ==
+  LET xo == Add(xs0[o], dx)
+      ya == Sub(xs0[a], gross)
+      up == [xs0 EXCEPT ![o] = xo, ![a] = Add(ya, tol)]
+      dn == [xs0 EXCEPT ![o] = xo, ![a] = Sub(ya, tol)]
+  IN /\ DBelowRoot(ann, up, d0)                                   \* gross <= exact + tol
+     /\ (Le(ya, tol) \/ DAboveRoot(ann, dn, Add(d0, One)))         \* gross >= exact - tol
+
+(* ------------------------------------------------------------------ price protections (C13) *)
+OneMinus(t) == Sub(DecScale, t)
+(* net >= dx * pn/pd * (1 - tol) - slack : the loss against price pn/pd is within tol *)
+LossWithin(net, dx, pn, pd, tol, slack) ==
+  Le(Mul(Mul(dx, pn), OneMinus(tol)), Mul(Mul(Add(net, slack), pd), DecScale))
+(* net <= dx * pn/pd * (1 - tol) + slack : the loss is at least tol *)
+LossAtLeast(net, dx, pn, pd, tol, slack) ==
+  Le(Mul(Mul(Sub(net, slack), pd), DecScale), Mul(Mul(dx, pn), OneMinus(tol)))
+(* two-asset deposit d into reserves R: both ratios within tolerance t (one ulp of the fixed point allowed) *)
+DepositRatioWithin(d, R, t) ==
+  /\ Le(Mul(Mul(d[1], OneMinus(t)), R[2]), Add(Mul(Mul(R[1], DecScale), d[2]), Mul(d[2], R[2])))
+  /\ Le(Mul(Mul(d[2], OneMinus(t)), R[1]), Add(Mul(Mul(R[2], DecScale), d[1]), Mul(d[1], R[1])))
+Proportional(d, R) == \A i, j \in DOMAIN d : Mul(d[i], R[j]) = Mul(d[j], R[i])
 =============================================================================
